@@ -377,12 +377,12 @@ func loopRule(p *load.Program, s *oblig.Set) {
 	}
 	pos := p.Pos(fn.Pos())
 	type res struct {
-		conds     []string
-		processed []string
-		counts    []string
-		end       string
-		err1      bool
-		lineEmpty bool
+		conds       []string
+		processed   []string
+		counts      []string
+		end         string
+		err1        bool
+		lineEmpty   bool
 		accumulated bool // LINE1 was appended to the pending input
 		scanned     bool // the driver looked at the bytes of the line itself (no strings.Count)
 	}
